@@ -1,6 +1,7 @@
 (* Property C12 — PES headers and timestamps per ISO 13818-1 2.4.3.6-7 (theorems only; proofs in Proofs/). *)
 From Coq Require Import ZArith List.
-Require Import Base.Bits Base.Iter Base.Wr Gen.Consts Gen.Types Gen.Preds Model.Clock Model.Pes Proofs.ClockProofs.
+Require Import Base.Bits Base.Iter Base.Wr Gen.Consts Gen.Types Gen.Preds Model.Clock Model.Pes Spec.PesSpec
+  Proofs.ClockProofs Proofs.PesProofs Proofs.PesRoundTrip.
 Import ListNotations.
 Open Scope Z_scope.
 
@@ -17,3 +18,75 @@ Theorem C12_escr_roundtrip : forall base ext rest, 0 <= base < 2 ^ 33 -> 0 <= ex
   Ok (mk_cr base ext, mk_iter (bytes_of_items (enc_escr (mk_cr base ext)) ++ rest) 6).
 Proof. exact escr_roundtrip. Qed.
 Print Assumptions C12_escr_roundtrip.
+
+(* ClockReference.Duration(): inside the property's range (33-bit base, 9-bit extension) it is
+   base*10^9/90000 + ext*10^9/27000000 (each term truncated; Z.div = Z.quot on non-negative operands),
+   every int64 intermediate stays below 2^63, and the result lies less than 2 ns below the exact rational
+   value base/90kHz + ext/27MHz (both sides scaled by 27 000 000) *)
+Theorem C12_duration : forall base ext, 0 <= base < 2 ^ 33 -> 0 <= ext < 2 ^ 9 ->
+  let d := cr_duration (mk_cr base ext) in
+  d = base * 10 ^ 9 / 90000 + ext * 10 ^ 9 / 27000000
+  /\ 0 <= base * 10 ^ 9 < 2 ^ 63 /\ 0 <= ext * 10 ^ 9 < 2 ^ 63
+  /\ 0 <= base * 10 ^ 9 / 90000 < 2 ^ 63 /\ 0 <= ext * 10 ^ 9 / 27000000 < 2 ^ 63 /\ 0 <= d < 2 ^ 63
+  /\ 27000000 * d <= 300 * (base * 10 ^ 9) + ext * 10 ^ 9 < 27000000 * (d + 2).
+Proof. exact duration_spec. Qed.
+Print Assumptions C12_duration.
+
+(* PES_packet_length as written: 0 for the video stream ids 0xE0 / 0xFD or when payload + optional header
+   exceed 65535, otherwise payload + optional header length (no optional header for 0xBE / 0xBF);
+   IsVideoStream, hasPESOptionalHeader and calcPESOptionalHeaderLength are the definitions regenerated from data_pes.go *)
+Theorem C12_length_rule : forall h n,
+  pes_packet_length h n =
+    (if orb (PESHeader_StreamID h =? 224) (PESHeader_StreamID h =? 253) then 0
+     else if n + opt_len_of h >? 65535 then 0
+     else n + opt_len_of h)
+  /\ forall its k, enc_pes_header h n = Ok (its, k) ->
+       exists rest, its = [WBits 24 1; wu8 (PESHeader_StreamID h); wu16 (pes_packet_length h n)] ++ rest.
+Proof. intros h n. split; [apply length_rule | apply enc_pes_header_head]. Qed.
+Print Assumptions C12_length_rule.
+
+(* payload boundaries: for every byte string on which parsePESHeader succeeds (header h, whatever it contains),
+   with L = PES_packet_length and hdr = 3 + PES_header_data_length (0 without optional header):
+   L > 0: the data are exactly the L - hdr bytes behind the header, an error when fewer are available or when
+   L ends inside the header; L = 0: everything up to the end of the unit *)
+Theorem C12_payload : forall bs h ds de i',
+  parse_pes_header (mk_iter bs 3) = Ok ((h, ds, de), i') ->
+  let L := PESHeader_PacketLength h in
+  let hdr := match PESHeader_OptionalHeader h with
+             | Some oh => 3 + PESOptionalHeader_HeaderLength oh | None => 0 end in
+  let len := Z.of_nat (length bs) in
+  bytes_ok bs ->
+  (L > 0 -> hdr <= L -> 6 + L <= len ->
+     parse_pes_data_bytes bs = Ok {| PESData_Data := slice bs (6 + hdr) (6 + L); PESData_Header := Some h |}
+     /\ Z.of_nat (length (slice bs (6 + hdr) (6 + L))) = L - hdr) /\
+  (L > 0 -> len < 6 + L -> parse_pes_data_bytes bs = Err E_generic) /\
+  (L > 0 -> L < hdr -> parse_pes_data_bytes bs = Err E_generic) /\
+  (L = 0 -> 6 + hdr <= len ->
+     parse_pes_data_bytes bs = Ok {| PESData_Data := skipn (Z.to_nat (6 + hdr)) bs; PESData_Header := Some h |}) /\
+  (L = 0 -> len < 6 + hdr -> parse_pes_data_bytes bs = Err E_generic).
+Proof. exact payload_rule. Qed.
+Print Assumptions C12_payload.
+
+(* parse (write v) = observed v, full strength: for EVERY writable header v (Spec.PesSpec.wf_header: any stream id;
+   for ids with an optional header every field within its width - all 2^2 scrambling values, all flag
+   combinations, PTS/DTS/ESCR over all 2^33 x 2^9 values, ES rate 0..2^22-1, every trick mode, copy info,
+   16 bytes of private data, sequence counter, P-STD buffer, extension 2 of 0..127 bytes; the two parts the writer
+   does not support, CRC and pack header, absent) and every payload: writePESHeader succeeds, reports the number of
+   bytes it produced, and parsePESData on header ++ payload returns exactly the payload and the header with its derived
+   fields filled in (marker bits '10', PES_header_data_length = sum of the parts present, PES_extension_field_length,
+   PES_packet_length by the length rule). *)
+Theorem C12_parse_write_header : forall h payload, wf_header h -> bytes_ok payload ->
+  exists its n, enc_pes_header h (Z.of_nat (length payload)) = Ok (its, n) /\
+    n = Z.of_nat (length (bytes_of_items its)) /\
+    parse_pes_data_bytes (bytes_of_items its ++ payload) =
+      Ok {| PESData_Data := payload;
+            PESData_Header := Some (observed_header h (Z.of_nat (length payload))) |}.
+Proof. exact parse_write_header. Qed.
+Print Assumptions C12_parse_write_header.
+
+(* the regenerated calcPESOptionalHeaderDataLength (uint8 arithmetic, from data_pes.go) never wraps on a writable
+   header: it is the sum of the sizes of the parts present, at most 170 *)
+Theorem C12_header_data_length : forall h, wf_opt h ->
+  calcPESOptionalHeaderDataLength h = ref_header_data_length h /\ 0 <= ref_header_data_length h <= 170.
+Proof. intros h W. split; [apply calc_len_eq | apply ref_len_range]; exact W. Qed.
+Print Assumptions C12_header_data_length.
